@@ -260,7 +260,8 @@ def exec_ni_history(hist, rp):
     def V(key, detail):
         viol.append({"key": key, "detail": detail, "replay": rp})
 
-    calcs = {}  # (model, uks) -> ks   long-lived calculators
+    held = []
+    calcs = {}  # model -> ks   long-lived calculators
     gridobjs = {}  # (model-is-nldf, mol, grid) -> grids object (long-lived, shared between calls)
     refs = {}
 
@@ -383,9 +384,16 @@ def exec_ni_history(hist, rp):
         if before != after:
             V("input-mutated:%s:dm-or-grid" % site, "step %d: caller-owned arrays changed by the call" % step)
         nset = len(dms)
+        for lab, arr, snap in held:
+            if not np.array_equal(np.asarray(arr), snap, equal_nan=True):
+                V("result-aliased:%s:%s" % (site, lab), "step %d: an array returned by an earlier call was changed by a later call" % step)
+                break
         n = np.asarray(n)
         v = np.asarray(v)
         e = np.asarray(e)
+        held.append(("vmat", v, np.array(v, copy=True)))
+        held.append(("nelec", n, np.array(n, copy=True)))
+        stats["held_results_rechecked"] += 2
         for idx, j in enumerate(op["dms"]):
             if op["alias"] == "sameab":
                 continue  # other input than the memoised reference; only the mutation check applies
@@ -485,10 +493,19 @@ def exec_nldfgen_history(hist, rp):
         return fresh[("p", i, j, s)]
 
     last_rho = {}
+    held = []  # (label, returned array object, copy at return time)
+
+    def check_held(step):
+        for label, arr, snap in held:
+            if not np.array_equal(np.asarray(arr), snap, equal_nan=True):
+                V("result-aliased:LCAONLDFGenerator.%s" % label, "step %d: an array returned by an earlier call was changed by a later call" % step)
+                return
+
     for step, op in enumerate(hist["ops"]):
         stats["op_" + op["op"]] += 1
         dg.add(op["op"], op["spin"])
         s = op["spin"]
+        check_held(step)
         if op["op"] == "feat":
             arr = rhos[op["rho"]].copy()
             if op["alias"] == "readonly":
@@ -505,6 +522,7 @@ def exec_nldfgen_history(hist, rp):
                 break
             if adigest(arr) != b:
                 V("input-mutated:LCAONLDFGenerator.get_features:rho", "step %d: rho_in changed (max |delta| %.3g)" % (step, float(np.abs(np.asarray(arr) - rhos[op["rho"]]).max())))
+            held.append(("get_features", f, np.array(f, copy=True)))
             ok, why = close(f, ref_feat(op["rho"], s))
             stats["comparisons"] += 1
             if not ok:
@@ -526,11 +544,14 @@ def exec_nldfgen_history(hist, rp):
                 break
             if adigest(arr) != b:
                 V("input-mutated:LCAONLDFGenerator.get_potential:vfeat", "step %d: vfeat changed by the call (nspin=%d)" % (step, p["nspin"]))
+            held.append(("get_potential", pot, np.array(pot, copy=True)))
             ok, why = close(pot, ref_pot(last_rho[s], op["v"], s))
             stats["comparisons"] += 1
             stats["potential_calls"] += 1
             if not ok:
                 V("history_vs_fresh:LCAONLDFGenerator.get_potential:vrho:spin%d" % s, "step %d: %s" % (step, why))
+    check_held(len(hist["ops"]))
+    stats["held_results_rechecked"] += len(held)
     return viol, stats, dg
 
 
@@ -994,6 +1015,7 @@ def coverage(done, tier):
             "generator_spin_interleavings": tot["spin_interleavings"],
             "chunked_model_evaluations": tot["chunked_evals"],
             "repeated_potential_evaluations": tot["potential_calls"],
+            "earlier_results_rechecked_after_later_calls": tot["held_results_rechecked"],
             "allocator_patterns": {k[8:]: v for k, v in tot.items() if k.startswith("perturb_")},
         },
         "probes": {
